@@ -223,12 +223,13 @@ type Reg struct {
 	ufunOrder   []string
 	axioms      []string
 	useCard     map[string]bool // key sort -> card function needed
+	mapPkg      map[string]string
 	anon        int
 }
 
 func NewReg() *Reg {
 	return &Reg{structs: map[string]*structInfo{}, fieldIDs: map[string]int{}, typeIDs: map[string]int{}, typeByID: map[int]types.Type{},
-		boxes: map[string]string{}, strLits: map[string]string{}, heaps: map[string]string{}, ufuns: map[string]string{}, useCard: map[string]bool{}}
+		boxes: map[string]string{}, strLits: map[string]string{}, heaps: map[string]string{}, ufuns: map[string]string{}, useCard: map[string]bool{}, mapPkg: map[string]string{}}
 }
 
 func under(t types.Type) types.Type {
@@ -445,7 +446,36 @@ func (r *Reg) CellHeapT(t types.Type) string {
 }
 
 // MDomHeapT / MValHeapT: key presence and values of maps of Go type mt.
+// unexportedPkg returns the in-repo package path of an unexported named type
+// mentioned by t (pointer/slice/map element positions), or "".
+func unexportedPkg(t types.Type, depth int) string {
+	if depth > 6 {
+		return ""
+	}
+	switch u := types.Unalias(t).(type) {
+	case *types.Named:
+		if o := u.Obj(); o != nil && o.Pkg() != nil && !o.Exported() && strings.HasPrefix(o.Pkg().Path(), ModPath) {
+			return o.Pkg().Path()
+		}
+		return ""
+	case *types.Pointer:
+		return unexportedPkg(u.Elem(), depth+1)
+	case *types.Slice:
+		return unexportedPkg(u.Elem(), depth+1)
+	case *types.Map:
+		if p := unexportedPkg(u.Key(), depth+1); p != "" {
+			return p
+		}
+		return unexportedPkg(u.Elem(), depth+1)
+	}
+	return ""
+}
+
 func (r *Reg) MDomHeapT(mt *types.Map) string {
+	if p := unexportedPkg(mt, 0); p != "" {
+		r.mapPkg["MDom_"+r.TypeKey(mt)] = p
+		r.mapPkg["MVal_"+r.TypeKey(mt)] = p
+	}
 	return r.Heap("MDom_"+r.TypeKey(mt), ArraySort("Ref", ArraySort(r.SortOf(mt.Key()), "Bool")))
 }
 func (r *Reg) MValHeapT(mt *types.Map) string {
